@@ -125,6 +125,19 @@ def random_mutations(rng, tx, names, n=None):
     for _ in range(n if n is not None else rng.choice([1, 1, 2, 3])):
         r = rng.random()
         ni, no = len(tx.inputs) + sum(1 for m in muts if m[0] == 'addin'), len(tx.outputs) + sum(1 for m in muts if m[0] == 'addout')
+        nw = len(tx.witnesses)
+        # in-place edits that keep every count the same (a placeholder signature replaced by the real one, a token appended)
+        if nw and rng.random() < 0.3:
+            i = rng.randrange(nw); st = tx.witnesses[i].stack
+            k = rng.random()
+            if st and k < 0.5: muts.append(('wit_item', i, rng.randrange(len(st)), rbytes(rng, rng.choice([0, 1, 20, 33, 64, 65, 71, 72, 73, 80])).hex()))
+            elif k < 0.75: muts.append(('wit_push', i, rbytes(rng, rng.randrange(0, 80)).hex()))
+            else: muts.append(('wit_set', i, [rbytes(rng, rng.randrange(0, 80)).hex() for _ in range(len(st))]))
+            continue
+        if rng.random() < 0.15:
+            if no and rng.random() < 0.5: muts.append(('spk_app', rng.randrange(len(tx.outputs)), token(rng, names, big=False)))
+            else: muts.append(('sig_app', rng.randrange(len(tx.inputs)), token(rng, names, big=False)))
+            continue
         if r < 0.2: muts.append(('seq', rng.randrange(ni), rbytes(rng, 4).hex()))
         elif r < 0.4 and no: muts.append(('amt', rng.randrange(no), rng.randrange(0, 21 * 10 ** 14)))
         elif r < 0.55: muts.append(('addout', rng.randrange(0, 10 ** 12), std_script(rng, names)))
@@ -149,6 +162,11 @@ def apply_mutations(tx, muts):
         elif m[0] == 'sig': tx.inputs[m[1]].script_sig = Script(list(m[2]))
         elif m[0] == 'lock': tx.locktime = bytes.fromhex(m[1])
         elif m[0] == 'spk': tx.outputs[m[1]].script_pubkey = Script(list(m[2]))
+        elif m[0] == 'wit_item': tx.witnesses[m[1]].stack[m[2]] = m[3]
+        elif m[0] == 'wit_push': tx.witnesses[m[1]].stack.append(m[2])
+        elif m[0] == 'wit_set': tx.witnesses[m[1]] = TxWitnessInput(list(m[2]))
+        elif m[0] == 'sig_app': tx.inputs[m[1]].script_sig.script.append(m[2])
+        elif m[0] == 'spk_app': tx.outputs[m[1]].script_pubkey.script.append(m[2])
 
 
 def muts_line(muts):
@@ -156,6 +174,12 @@ def muts_line(muts):
     out = [str(len(muts))]
     for m in muts:
         if m[0] in ('addout', 'sig', 'spk'): out += [m[0], str(m[1]), toks_str(m[2])]
+        elif m[0] == 'wit_item': out += [m[0], str(m[1]), str(m[2]), m[3] or '-']
+        elif m[0] == 'wit_push': out += [m[0], str(m[1]), m[2] or '-']
+        elif m[0] == 'wit_set': out += [m[0], str(m[1]), str(len(m[2]))] + [x or '-' for x in m[2]]
+        elif m[0] in ('sig_app', 'spk_app'):
+            from harness.common import tok_str
+            out += [m[0], str(m[1]), tok_str(m[2])]
         else: out += [m[0]] + [str(x) for x in m[1:]]
     return ' '.join(out)
 
@@ -170,6 +194,10 @@ def parse_muts(F):
         elif k == 'addin': muts.append((k, F.next(), F.nat()))
         elif k in ('sig', 'spk'): muts.append((k, F.nat(), F.toks()))
         elif k == 'lock': muts.append((k, F.next()))
+        elif k == 'wit_item': muts.append((k, F.nat(), F.nat(), F.bytes().hex()))
+        elif k == 'wit_push': muts.append((k, F.nat(), F.bytes().hex()))
+        elif k == 'wit_set': muts.append((k, F.nat(), [b.hex() for b in F.list(F.bytes)]))
+        elif k in ('sig_app', 'spk_app'): muts.append((k, F.nat(), F.tok()))
         else: raise ValueError(k)
     return muts
 
